@@ -43,7 +43,7 @@ RspBytes(c, k) == IF c.name = "GetChannelCipherSuites" THEN <<14, 192, 3, 1, 65,
                   ELSE IF c.rspN = "" THEN <<>> ELSE Encode(Tables[c.rspN], RspRec(c, k))
 Lun(c, k) == IF c.name = "GetSensorReading" THEN k % 4 ELSE 0
 
-Call(c, r, k, tg) ==
+CallV(c, r, k, tg, vprop) ==
   LET args0 == IF c.name = "GetPowerReading" THEN [Req |-> [Mode |-> 1, Period |-> [s |-> 0, ns |-> 0]]]
                ELSE IF c.reqT = NoT THEN <<>> ELSE [Req |-> r]
       args == IF c.name = "GetSensorReading" THEN args0 @@ [OwnerLUN |-> Lun(c, k)] ELSE args0
@@ -52,25 +52,26 @@ Call(c, r, k, tg) ==
      @@ [exp |-> [prop |-> "C06", rslun |-> Lun(c, k),
                   reqs |-> << [pt |-> 0, netfn |-> c.netfn, cmd |-> c.num, data |-> c.group \o ReqBytes(c, r)] >>]
                  @@ (IF c.rspN = "" THEN [outcome |-> "noerror"]
-                     ELSE [outcome |-> "agrees", vprop |-> "C07", value |-> Expected(c.rspN, Tables[c.rspN], RspRec(c, k))])]
+                     ELSE [outcome |-> "agrees", vprop |-> vprop, value |-> Expected(c.rspN, Tables[c.rspN], RspRec(c, k))])]
 MsgBytes(c, k) == MsgRspBytes(129, c.netfn + 1, 0, 1, Lun(c, k), c.num, 0, c.group \o RspBytes(c, k))
 ReactIn(c, k, j) == [React0 EXCEPT !.datagrams = << Dg(SessPacket(S, LE32s(j), B(MsgBytes(c, k)), [i \in 1..16 |-> (i + j) % 256]), [kind |-> "rsp"]) >>]
 ReactOut(c, k) == [React0 EXCEPT !.datagrams = << Dg(NullWrapper(0, B(MsgBytes(c, k))), [kind |-> "rsp"]) >>]
 
-RECURSIVE StepsFor(_, _, _, _)
-StepsFor(cs, k, tg, j) ==
+RECURSIVE StepsFor(_, _, _, _, _)
+StepsFor(cs, k, tg, j, vprop) ==
   IF cs = <<>> THEN <<>> ELSE
   LET c == Head(cs)
       rs == ReqRecs(c, k + j)
       r == CHOOSE x \in rs : TRUE
-  IN (IF rs = {} THEN <<>> ELSE << Call(c, r, k + j, tg), IF tg = "sess" THEN ReactIn(c, k + j, j) ELSE ReactOut(c, k + j) >>)
-     \o StepsFor(Tail(cs), k, tg, j + 1)
+  IN (IF rs = {} THEN <<>> ELSE << CallV(c, r, k + j, tg, vprop), IF tg = "sess" THEN ReactIn(c, k + j, j) ELSE ReactOut(c, k + j) >>)
+     \o StepsFor(Tail(cs), k, tg, j + 1, vprop)
 \* one script per (seed offset, target): every command once, in table order and in reverse (results must not depend on what preceded)
 Rev(q) == [i \in 1..Len(q) |-> q[Len(q) + 1 - i]]
 Script(id, k, tg, rev) ==
   [id |-> id, prefix |-> IF tg = "sess" THEN "hs" ELSE "",
    info |-> [family |-> "api", insess |-> tg = "sess", integLen |-> S.integLen, bmcSid |-> S.bmcSid],
-   steps |-> StepsFor(IF rev THEN Rev(Cmds(k)) ELSE Cmds(k), k, tg, 1)]
+   \* the same commands in reverse order: a result that differs only there depends on what preceded it (C17)
+   steps |-> StepsFor(IF rev THEN Rev(Cmds(k)) ELSE Cmds(k), k, tg, 1, IF rev THEN "C17" ELSE "C07")]
 Scripts == { Script("api-" \o tg \o "-" \o ToString(k) \o (IF rv THEN "r" ELSE "f"), Seed * 100 + k, tg, rv)
              : k \in 1..(IF Tier = "thorough" THEN 40 ELSE 8), tg \in {"conn", "sess"}, rv \in BOOLEAN }
 Header == [header |-> TRUE, family |-> "api", defs |-> SessionDefs(S), stable |-> <<"SIK", "K1", "K2">>,
